@@ -53,7 +53,7 @@ class Prop(PropBase):
         return rng.randint(-n - 2, n + 2)
 
     def _band(self, rng, n=None):
-        n = n or rng.choice([1, 2, 3, 4, 5, 7, 8, 9, 16, 31, 32, 64, 65, rng.randint(1, 65)])
+        n = n or rng.choice([1, 2, 3, 4, 5, 7, 8, 9, 16, 31, 32, 64, 65, rng.randint(1, 65), rng.choice([129, 257, 1024, 2049, 4097, 16385])])
         bw_val = rng.choice(["1", "0.5", "2", "3.125", "0.001", "12.5", "100", "0.2"])
         bw_unit = rng.choice(UNITS)
         bw_hz = F(bw_val) * X.unit_scale(self.u.Unit(bw_unit), self.u.Hz)
@@ -138,9 +138,9 @@ class Prop(PropBase):
             kw = dict(center_freq=self._q(case["cf"]) + 3 * bwq, freq_align={"bottom": "top", "center": "bottom"}.get(case["al"], "center"))
         try:
             if sigs.is_complex(cls):
-                z = sigs.make(pb, cls, 256, bwq, sigs.T0S[0], nchan=case["n"], **kw)
+                z = sigs.make(pb, cls, 256 if case["n"] <= 1024 else 8, bwq, sigs.T0S[0], nchan=case["n"], **kw)
             else:
-                z = sigs.make(pb, cls, 256, 1 * u.kHz, sigs.T0S[0], nchan=case["n"], chan_bw=bwq, **kw)
+                z = sigs.make(pb, cls, 256 if case["n"] <= 1024 else 8, 1 * u.kHz, sigs.T0S[0], nchan=case["n"], chan_bw=bwq, **kw)
             if via_setter:
                 z.center_freq = self._q(case["cf"])
                 z.freq_align = case["al"]
